@@ -79,11 +79,12 @@ M = [
  ("C16-macro-depth-huge", "C16", "src/builder/pass0.rs", "const MAX_MACRO_DEPTH: usize = 128;", "const MAX_MACRO_DEPTH: usize = 128_000_000;", "recursive macros run away again"),
  ("C10-duplicate-def-ignored", "C10", "src/builder/pass2.rs", "                if common_context.exist(&alias.to_lowercase()) {\n                    // TODO: add display current string of mistake and previous location\n                    bail!(\"Identifier {} is used twice, {}\", alias, line);\n                }\n                common_context.set_def", "                common_context.set_def", "second .def of a taken name silently ignored again (fix bef9b26 undone by hand)"),
  ("C11-directory-shadows-file", "C11", "src/parser.rs", "            if full_path.as_path().is_file() {", "            if full_path.as_path().exists() {", "a directory with the name of an included file ends the search again (part of fix a9de6e3 undone by hand)"),
+ ("C10-define-clash-unchecked", "C10", "src/context.rs", "        self.define_names.borrow().contains(&name.to_lowercase())\n            // the location counter exists in pass 2 only, its name is taken from the start\n            || name.eq_ignore_ascii_case(\"pc\")", "        name.eq_ignore_ascii_case(\"pc\")", "a symbol may share its name with a #define again (fix d6b2fc4 undone by hand)"),
  # ---- C17 independence
  ("C17-device-cache", "C17", "src/context.rs", "            device: Rc::new(RefCell::new(Some(Device::new(0)))),", "            device: Rc::new(RefCell::new(Some(LAST_DEVICE.with(|d| d.borrow().clone())))),", "context starts from a thread-local 'last device' cache"),
  ("C17-include-cache-by-name", "C17", "src/parser.rs", "    let include_paths = RefCell::new(include_paths);\n\n    let file_context", "    let cache_key = current_path.file_name().map(|n| n.to_string_lossy().to_string()).unwrap_or_default();\n    let source = INCLUDE_CACHE.with(|c| c.borrow_mut().entry(cache_key).or_insert(source).clone());\n    let include_paths = RefCell::new(include_paths);\n\n    let file_context", "included files cached per thread by file name"),
  # ---- C18 CLI
- ("C18-write-failure-exit0", "C18", "src/app/main.rs", "                    Err(e) => {\n                        failed = true;\n                        println!(\n                            \"Failed to generate and write hex file {}, with error {}\",\n                            file_name, e\n                        )\n                    }\n                }\n            } else {\n                println!(\"Nothing to write of code", "                    Err(e) => {\n                        println!(\n                            \"Failed to generate and write hex file {}, with error {}\",\n                            file_name, e\n                        )\n                    }\n                }\n            } else {\n                println!(\"Nothing to write of code", "flash write failure no longer changes the exit status"),
+ ("C18-write-failure-exit0", "C18", "src/app/main.rs", "                    Err(e) => {\n                        failed = true;\n                        println!(\n                            \"Failed to generate and write hex file {}, with error {}\",\n                            file_name, e\n                        )\n                    }\n                }\n            }\n            // write to file eeprom", "                    Err(e) => {\n                        println!(\n                            \"Failed to generate and write hex file {}, with error {}\",\n                            file_name, e\n                        )\n                    }\n                }\n            }\n            // write to file eeprom", "flash write failure no longer changes the exit status"),
  ("C18-stem-through-str", "C18", "src/app/main.rs", "            .file_stem()\n            .unwrap_or_default()\n            .to_os_string();", "            .file_stem()\n            .unwrap_or_default()\n            .to_str()\n            .map(std::ffi::OsString::from)\n            .unwrap_or_default();", "output names derived through &str again (non-UTF-8 stems collapse)"),
  ("C18-eep-name", "C18", "src/app/main.rs", ".unwrap_or_else(|| default_output(\".eep.hex\"));", ".unwrap_or_else(|| default_output(\".eep\"));", "default EEPROM file gets the wrong name"),
  ("C18-same-output-unchecked", "C18", "src/app/main.rs", "    a == b || (resolved(a).is_some() && resolved(a) == resolved(b))", "    let _ = (a, b, &resolved);\n    false", "-o and -e naming one file is not noticed again"),
@@ -119,11 +120,11 @@ REVERTS = [
  ("R-device-two-operands", "C12", "e22c5cc", ".device A, B accepted"),
  ("R-org-before-switch", "C02", "9630515 63de58d", ".org directly followed by a segment switch is lost"),
  ("R-includepath-panic", "C16", "7410e14", "relative .includepath in a macro body panics"),
- ("R-cli-same-output-spelling", "C18", "ef3c1cb", "-o out.hex -e ./out.hex loses the flash image silently"),
  ("R-macro-line-length", "C16", "c243025", "m @0@0 recursion doubles its argument until memory is gone"),
- ("R-includepath-own-directory", "C11", "f446de7", ".includepath of the file's own directory not handed on"),
+ ("R-includepath-own-directory", "C11", "f446de7 e251467", ".includepath of the file's own directory not handed on"),
+ ("R-directive-second-operand", "C15", "b1eac26", ".if 1 nosuch assembles as .if 1"),
+ ("R-macro-line-length-precheck", "C16", "eb3a7c1", "a macro line with thousands of parameters and a long argument is built before its length is checked"),
  ("R-empty-flash-not-written", "C18", "cb20c45", "no .hex for an empty flash image, stale file stays"),
- ("R-define-symbol-clash", "C10", "d6b2fc4", "#define FOO / .equ foo = 1 / rjmp FOO reads 0"),
  ("R-pc-as-label", "C10", "7783163", "label or .equ named pc accepted"),
  ("R-undef-two-names", "C10", "6571ebb", ".undef a, b ends a only"),
  ("R-def-register-name", "C10", "7d69954", ".def r5 = r20 accepted and ignored"),
